@@ -394,6 +394,30 @@ PROPS["C12"] = {
 }
 
 
+_LT_STEP = ("Bounded model checking of the compiled tracker code: the pre-state (any storage contents of the stated sizes satisfying the representation invariant), the request, the clock, limits and the RNG state are symbolic; "
+            "one real operation is executed and compared with a set-of-entries reference model, and the invariant is re-established - an inductive step, so histories of any length that stay inside the size bound are covered. "
+            "The SAT solver's verdict holds for ALL values inside the bound and says nothing outside it (sizes in level_note). This is the right level because the property quantifies over histories and inputs no test samples, "
+            "while a full unbounded proof of the container-heavy code is out of reach of the tools in this image.")
+_LT_CODEC = ("Bounded model checking of the real encoders/decoders against an independent byte-level oracle: message fields / input bytes are symbolic at full width, sizes are bounded as stated in level_note; "
+             "the solver either proves agreement for every value within the bound or returns a concrete message that is replayed natively. Right level: codec bugs hide in rare field values and boundaries that sampling misses; loops over input length force a size bound.")
+_LT_KERNEL = ("Bounded model checking at full integer width (no size bound on the integers involved): the arithmetic / comparison kernel is executed symbolically on the compiled code and the solver decides the assertion for every value; "
+              "environment (clock, keyed hash) is replaced by contract-only stubs listed in level_note.")
+LEVEL_TEXT = {
+    "C01": _LT_STEP, "C02": _LT_STEP, "C07": _LT_STEP, "C08": _LT_STEP, "C09": _LT_STEP, "C20": _LT_STEP,
+    "C10": _LT_KERNEL + " Storage-level cleaning is an inductive step as for C01/C07/C08.",
+    "C03": _LT_KERNEL, "C05": _LT_KERNEL,
+    "C06": _LT_STEP.replace("one real operation", "one real request-handler call"),
+    "C11": _LT_CODEC + " Enforcement on cleaning is an inductive step over symbolic list, mode and torrent contents.",
+    "C12": "Every harness of every property runs with Kani's panic, unwrap, bounds, overflow (dev profile), division and pointer checks on all paths; dedicated harnesses feed arbitrary byte strings of bounded length to each parser. "
+           "The verdict is 'no panic for ANY input within the length bound'; longer inputs and the SIMD JSON / HTTP header parsers are outside.",
+    "C13": _LT_CODEC, "C14": _LT_CODEC, "C15": _LT_CODEC,
+    "C18": "SMT queries (linear integer arithmetic) over the WHOLE configuration space: buffer sizes, defaults, field types and start-up validation are re-read from the sources on every run, reply sizes are linear in element counts (coefficients established on the real writers by C13/C14 harnesses). "
+           "unsat = no accepted configuration admits a reply larger than its buffer (unbounded claim within the size model); sat = concrete configuration, replayed on the real writer.",
+}
+for _p, _t in LEVEL_TEXT.items():
+    if _p in PROPS:
+        PROPS[_p]["level_text"] = _t
+
 NOTES = ("Every check = a set of solver queries (Kani/CBMC proof harnesses, z3 for C18) generated from /repo's current working tree. "
          "Exit 0 all discharged; 1 replayed counterexample (VIOLATION line); 2 inconclusive (timeout/OOM/vacuous/non-replaying) - never success.")
 
